@@ -55,3 +55,16 @@ class ScriptOpt(BaseOptimizationLibrary):
             else:
                 f.jac(x)
         return "script finished", 0
+
+
+class RaisingOpt(ScriptOpt):
+    """A driver that evaluates the script, then stops the way an algorithm wrapper or a GEMSEO stop test does:
+    by raising an exception of the given class from inside `_run`."""
+
+    def __init__(self, script, exc_class, algo_name: str = "VerifScript") -> None:
+        super().__init__(script, algo_name)
+        self.exc_class = exc_class
+
+    def _run(self, problem, **options: Any):
+        super()._run(problem, **options)
+        raise self.exc_class
